@@ -273,6 +273,25 @@ def opname(prog, i):
     return op
 
 
+COARSE = {"cmp": "pred", "logic": "pred", "isin": "pred", "isna": "pred", "notnull": "pred", "not": "pred",
+          "arith": "elemwise", "abs": "elemwise", "neg": "elemwise", "clip": "elemwise", "round": "elemwise",
+          "where": "elemwise", "fbin": "elemwise", "drop": "proj", "assign-const": "assign", "sfilt": "filt",
+          "dropna": "filt", "scalar-arith": "reduce"}
+
+
+def label_features(prog):
+    """Coarse op kinds of the live nodes, used in mechanism labels (series-level fillna/astype count as elemwise)."""
+    lv = live(prog)
+    out = set()
+    for i in lv:
+        nd = prog["nodes"][i]
+        n = opname(prog, i)
+        if nd[0] == "sun" and n in ("fillna", "astype"):
+            n = "elemwise"
+        out.add(COARSE.get(n, n))
+    return sorted(out - {"df", "col"})
+
+
 def features(prog, shared=True):
     """Sorted op-kind names of the live nodes (mechanism label part); with shared=True also the flag
     "shared" when some non-base node has more than one consumer."""
@@ -501,9 +520,11 @@ class Builder:
             # reduction defect outside this property (C37), so integer sources only meet float-valued aggregations here
             agg = r.choice(("mean", "std", "max", "min", "sum")) if self.meta[src]["dt"] == "f" else r.choice(("mean", "std"))
             sc = self.red(src, agg)
-            op = r.choice(("sub", "div", "add"))
+            # no division by an arbitrary reduction: a zero mean/min/sum gives inf, and reductions over inf differ between
+            # pandas and dask before any rewrite (numerics, not the optimizer)
+            op = r.choice(("sub", "add", "mul"))
             inner = self.add(["sbin", op, {"n": c}, {"n": sc}], self.smeta(c, "f", self.meta[c]["name"]))
-            if r.random() < 0.4:  # z-score shape
+            if r.random() < 0.4 and self.meta[c]["name"] in ("c", "C") and self.meta[c]["dt"] == "f":  # z-score shape
                 sd = self.red(c, "std")
                 return self.add(["sbin", "div", {"n": inner}, {"n": sd}], self.smeta(c, "f", self.meta[c]["name"]))
             return inner
